@@ -646,6 +646,10 @@ func (d *urlValuesDecoder) DecodeObject(param string, sm *openapi3.Serialization
 			if sm.Explode {
 				props := make(map[string]string)
 				for key, values := range params {
+					if len(values) == 0 {
+						// a key without values (query parameters given already parsed)
+						continue
+					}
 					props[key] = values[0]
 				}
 				return props, nil
